@@ -609,8 +609,13 @@ pub fn schedules(ctx : &Ctx, out : &mut Out)
         if let Some((_, _, ops)) = world::parse_history_case(&line)
         {
             if ops.is_empty() { continue; }
+          // every corpus case twice: on the ordinary file system, and on one whose reads return a single byte at a time
+          for chunk in [0usize, 1]
+          {
             out.count("corpus-case");
+            crate::memsys::set_default_read_chunk(chunk);
             let driver = Driver::new(ClockMode::Fine, 1_000_000);
+            crate::memsys::set_default_read_chunk(0);
             let mut tr = Tracker::new(&format!("corpus:{}", name), true);
             let (prep, last) = ops.split_at(ops.len() - 1);
             let mut sc_opt : Option<Scenario> = None;
@@ -634,6 +639,7 @@ pub fn schedules(ctx : &Ctx, out : &mut Out)
                 let mut rng = Rng::new(ctx.seed).fork(77);
                 explore(out, &mut rng, &p, &last[0], if ctx.thorough { 400 } else { 150 }, 30, if ctx.thorough { 4000 } else { 600 }, if ctx.thorough { 40 } else { 10 });
             }
+          }
         }
     }
 
